@@ -1306,3 +1306,82 @@ func LitImpliesGreater(l Lit, k int64) bool {
 	}
 	return false
 }
+
+// ---------------------------------------------------------------------------
+// Boolean helper summaries
+
+// BoolCase is one way a boolean-returning function produces its result: the
+// literals known to hold on that path and the value returned (a constant or
+// a condition).
+type BoolCase struct {
+	Lits []Lit
+	Val  ssa.Value
+}
+
+// BoolCases enumerates the cases of a function with a single boolean result
+// (phi nodes of short-circuit operators are expanded two levels).
+func BoolCases(f *ssa.Function) []BoolCase {
+	var out []BoolCase
+	var expand func(v ssa.Value, lits []Lit, d int)
+	expand = func(v ssa.Value, lits []Lit, d int) {
+		ph, ok := v.(*ssa.Phi)
+		if !ok || d > 2 {
+			out = append(out, BoolCase{Lits: lits, Val: v})
+			return
+		}
+		b := ph.Block()
+		for i, e := range ph.Edges {
+			pred := b.Preds[i]
+			ls := append([]Lit{}, Lits(Guards(pred))...)
+			if n := len(pred.Instrs); n > 0 {
+				if iff, ok := pred.Instrs[n-1].(*ssa.If); ok && len(pred.Succs) == 2 && pred.Succs[0] != pred.Succs[1] {
+					ls = append(ls, LitOf(iff.Cond, pred.Succs[0] == b))
+				}
+			}
+			expand(e, ls, d+1)
+		}
+	}
+	for _, r := range Returns(f) {
+		if len(r.Results) != 1 {
+			return nil
+		}
+		expand(r.Results[0], Lits(Guards(r.Block())), 0)
+	}
+	return out
+}
+
+// ConstBool reports a boolean constant.
+func ConstBool(v ssa.Value) (bool, bool) {
+	if c, ok := v.(*ssa.Const); ok && c.Value != nil && c.Value.Kind() == constant.Bool {
+		return constant.BoolVal(c.Value), true
+	}
+	return false, false
+}
+
+// HelperImplies reports whether "h returns pol" implies that some literal
+// accepted by ok holds (h is a boolean helper; ok sees literals over h's own
+// parameters).
+func HelperImplies(h *ssa.Function, pol bool, ok func(Lit) bool) bool {
+	cases := BoolCases(h)
+	if len(cases) == 0 {
+		return false
+	}
+	for _, c := range cases {
+		if k, isC := ConstBool(c.Val); isC && k != pol {
+			continue
+		}
+		good := false
+		for _, l := range c.Lits {
+			if ok(l) {
+				good = true
+			}
+		}
+		if _, isC := ConstBool(c.Val); !isC && ok(LitOf(c.Val, pol)) {
+			good = true
+		}
+		if !good {
+			return false
+		}
+	}
+	return true
+}
